@@ -411,6 +411,12 @@ def flag_reach(fn, start, env0=None, cap=200000, avoid=()):
                     env.pop(dl, None)
             elif nm.endswith("::from_residual"):
                 env[dl] = ("fail",)        # the `?` error path builds the Err / None that is returned
+            elif F.TRANSPARENT.search(nm) and t["args"] and not re.search(r"::(map|and_then|filter|take)$", nm):
+                x = val_of(t["args"][0], env)
+                if x is not None and x[0] in ("wrap", "fail", "variant"):
+                    env[dl] = x
+                else:
+                    env.pop(dl, None)
             elif re.search(r"PartialEq(<.*>)?>?::(eq|ne)$", nm) and len(t["args"]) == 2:
                 a_, b_ = val_of(t["args"][0], env), val_of(t["args"][1], env)
                 if a_ is not None and b_ is not None and a_[0] == "variant" and b_[0] == "variant":
